@@ -70,7 +70,8 @@ class Device(object):
         self.seq = 0
         self.nopen = 0
         self.host_maxdata = None
-        self.maxdata = cfg.get('maxdata', MAXDATA)
+        self.maxdata = (env.session_over or {}).get('maxdata', cfg.get('maxdata', MAXDATA))
+        self.stale = []
         self.remote_ids = list(cfg.get('remote_ids', DEFAULT_REMOTE_IDS))
         spec = (env.session_over or {}).get('auth') or cfg.get('auth')
         if spec:
@@ -95,6 +96,9 @@ class Device(object):
         self.online = True
         self.enqueue(self.conn_q, Packet(b'CNXN', 0x01000000, self.maxdata if maxdata is None else maxdata,
                                          self.cfg.get('banner', b'device::ro.product.name=sim;\0')), delay)
+        for pkt in self.stale:          # whole packets of the previous session that the link delivers late (unflushed USB pipe, slow device)
+            self.enqueue(self.conn_q, pkt, delay)
+        self.stale = []
 
     # ------------------------------------------------------------------ host -> device
     def feed(self, data):
